@@ -23,7 +23,8 @@ RULE = ("bit formats = ordered tuples of field widths >= 1; quick: every format 
         "fields wider than one bit); thorough: exhaustive up to total width 10 (699 050 cases) and 8 vectors per "
         "format for 9..16 wide ones; seeded random formats of total width up to 256 bits with explicit size, "
         "reverse, offsets and random neighbouring bytes for packifyInto, arbitrary byte strings for unpackify; "
-        "scalar codecs: bytify/unbytify all n < 2**16 at sizes 0..3 and random n up to 2**200, hexify/unhexify/"
+        "scalar codecs: bytify/unbytify all n < 2**16 and -n-1 at sizes 0..3 (quick: one size per n, rotating) and "
+        "random n up to 2**200, hexify/unhexify/"
         "hexize/unhexize all byte strings <= 2 bytes and random ones (odd length, mixed case, separators), "
         "binize/unbinize all n < 2**12 at sizes 1..12 and random, signExtend all (x, n) with n <= 12 and random n "
         "<= 128; distinct = distinct (function family, format, values / argument); non-trivial = at least one "
@@ -382,7 +383,7 @@ def do_scalars_exhaustive(ctx, part, parts):
     from ioflo.aid import byting as b
     # bytify / unbytify: all n < 2**16 at sizes 0..3 (sharded by n)
     for n in range(part, 1 << 16, parts):
-        for size in range(4):
+        for size in ((n % 4,) if ctx.quick else range(4)):
             scalar_bytify(ctx, b, n, size, bool((n >> 4) & 1), bool((n >> 5) & 1), "exhaustive")
             scalar_bytify(ctx, b, -n - 1, size, bool((n >> 5) & 1), False, "exhaustive")
         if n < (1 << 12):
